@@ -82,6 +82,23 @@ func (o *Obs) sessPut(key string) (string, bool) {
 	return v, ok
 }
 
+// loginPut returns the uid the response established through a login flow. A
+// uid that only the remember-me middleware produced (the request also carried a
+// usable cookie of that account, no session user, and the half-auth mark is
+// still in place afterwards - every completed login flow removes it) is not a
+// login of the handler and is ignored.
+func (w *World) loginPut(o *Obs) (string, bool) {
+	uid, ok := o.sessPut("uid")
+	if !ok || uid == "" {
+		return "", false
+	}
+	if ck := o.presented("cookie"); ck != nil && o.uidBefore() == "" && w.Cfg.hasModule("remember") && !w.Cfg.hasSetup("expire") &&
+		ck.Known != nil && usable(ck.Status) && ck.Known.Acct >= 0 && ck.Known.Acct == w.acctByPID(uid) && o.SessAfter["halfauth"] == "true" {
+		return "", false
+	}
+	return uid, true
+}
+
 func (o *Obs) cookPut(key string) (string, bool) {
 	v, ok := "", false
 	for _, ev := range o.CookEvents {
